@@ -1177,7 +1177,7 @@ Definition stat_close (tol : Q) (a b : @stat_result Q) : bool :=
 
 def run(ctx):
     thorough = ctx.tier == "thorough"
-    ctx.proofs()
+    ctx.proofs(["C12/Props.v", "C12/PropsTie.v"])
     np.seterr(all="ignore")
     kalman_checks(ctx, 500 if thorough else 120, 12000 if thorough else 3000)
     ops_checks(ctx, 300 if thorough else 60, 12000 if thorough else 3000)
